@@ -127,6 +127,9 @@ class _STIXBase(collections.abc.Mapping):
     def __init__(self, allow_custom=False, interoperability=False, **kwargs):
         cls = self.__class__
 
+        # Copies and new versions of this object are made the same way
+        self._interoperability = interoperability
+
         # Use the same timestamp for any auto-generated datetimes
         self.__now = get_timestamp()
 
@@ -335,7 +338,7 @@ class _STIXBase(collections.abc.Mapping):
         if isinstance(self, _Observable):
             # Assume: valid references in the original object are still valid in the new version
             new_inner['_valid_refs'] = {'*': '*'}
-        return cls(allow_custom=True, interoperability=False, **new_inner)
+        return cls(allow_custom=True, interoperability=self._interoperability, **new_inner)
 
     def properties_populated(self):
         return list(self._inner.keys())
